@@ -86,12 +86,7 @@ def run(idx: Index, rep: Report, tier: str):
             val = sp.simplify(symx.to_sympy(nb[0].value, {"n_electrons": 2 * a + r, "spin": 2 * b + r}))
             ok = ok and sp.simplify(val - (a - b)) == 0
     rep.decide(ok, rule, gv, nb[0] if nb else gv.node, text=f"get_vector: {norm(nb[0]) if nb else 'n_beta'}", what="the number of beta electrons is (n - s)/2", reason="formula differs from (n - s)/2")
-    fills = [n for n in own_nodes(gv.node) if isinstance(n, ast.Assign) and isinstance(n.targets[0], ast.Subscript) and norm(n.targets[0].value) == "vector" and norm(n.value) == "1"]
-    got = sorted(norm(n.targets[0].slice) for n in fills)
-    want = sorted(["0:2 * n_alpha:2", "1:2 * n_beta + 1:2", ":n_electrons"])
-    rep.decide(got == want, rule, gv, fills[0] if fills else gv.node, text=f"fill slices {got}",
-               what="alpha electrons fill the first n_alpha even positions, beta electrons the first n_beta odd ones; without spin the first n positions",
-               reason=f"fill slices are {got}")
+    # which positions are filled is decided by folding get_vector on every (spin-orbitals, electrons, spin) below (K9.vector-to-circuit), not by the spelling of the slices
     # slice lengths: len(range(0, 2na, 2)) = na ; len(range(1, 2nb+1, 2)) = nb
     na = sp.Symbol("na", integer=True, nonnegative=True)
     ok = sp.simplify(sp.ceiling((2 * na - 0) / sp.Integer(2)) - na) == 0 and sp.simplify(sp.ceiling((2 * na + 1 - 1) / sp.Integer(2)) - na) == 0
